@@ -35,13 +35,7 @@ def main(argv: list[str] | None = None) -> int:
     try:
         repo = Repo(args.repo)
         chk = Check(prop, args.tier, args.repo, seed)
-        try:
-            mod.run(repo, chk)
-        except AnalysisError as e:
-            # a violation that was already established stands on its own: it is more specific than "a later rule could not be evaluated"
-            if not chk.unlisted():
-                raise
-            print(f"note: analysis stopped early ({e}); the violations below were established before that")
+        mod.run(repo, chk)
         if args.tier == "thorough" and not args.no_selftest:
             # self-validation of the rules on mutated scratch copies (informational, never the verdict)
             from selftest import runner
